@@ -136,6 +136,10 @@ def param_spec(draw, types=TYPES, for_schema=False):
         if b is not None:
             cfg["bounds"] = b
             cfg["inclusive_bounds"] = inc
+        if draw(st.integers(0, 2)) == 0:
+            # soft bounds are GUI hints only: tighter than the hard bounds, or present where no hard bound is
+            lo, hi = b if b is not None else (None, None)
+            cfg["softbounds"] = ((lo + 1) if lo is not None else -1, (hi - 1) if hi is not None else 1)
     elif t in ("Tuple", "NumericTuple"):
         cfg["length"] = draw(st.integers(0 if t == "Tuple" else 1, 3))
     elif t == "List":
@@ -196,7 +200,7 @@ def enc_spec(spec):
     t, cfg, d, v = spec
     c = {}
     for k, x in cfg.items():
-        if k == "bounds":
+        if k in ("bounds", "softbounds"):
             c[k] = [None if y is None else _enc(y) for y in x]
         elif k == "inclusive_bounds":
             c[k] = list(x)
@@ -213,7 +217,7 @@ def dec_spec(e):
     t, c, d, v = e
     cfg = {}
     for k, x in c.items():
-        if k == "bounds":
+        if k in ("bounds", "softbounds"):
             cfg[k] = tuple(None if y is None else _dec(y) for y in x)
         elif k == "inclusive_bounds":
             cfg[k] = tuple(x)
